@@ -2,7 +2,7 @@
 from checks.hub_common import run_hub, replay_hub
 
 PID = "C04"
-RULE = ("the shapes without losses: plain, with batch-size limit 1 (failpoint twoPCRequestBatchSizeLimit), and with one or two region errors / splits at random RPC indexes that force the committer to re-group its batches, optionally a concurrent reader (its lock-resolution requests are monitored too); the judge's monitor reads the rpc stream; pess-program family: pessimistic programs whose LockKeys calls fail with write conflict / key exists (first call favoured) and carry on with other keys, long variants wait for wall-clock heart-beats (`audit heartbeat`); long-txn family: primary ttl extended by heart-beats under a stepped virtual clock, then a foreign reader / locker / writer meets a lock inside the prewrite phase (rule 5 incl. its async-commit recovery half, rule 8 incl. pessimistic lock requests, rule 4 with action codes); slow-owner family (clock step between execution and delivery of a status check) and beat-faults family (isolated heart-beat failures with successes in between, then `audit heartbeat` / `audit held` and a foreign no-wait locker); shape kind insdel (check-only mutations; rule 8 for async-commit primaries); round 3: lazy writes (`setlazy`: constraint check deferred to prewrite) in the pess-program family, rule 9 extended to the per-mutation pessimistic action of a pessimistic prewrite (locked key 1, lazily written unlocked key 2, else 0), the C03 triple family also runs here, aged shapes / commit mode `both`")
+RULE = ("the shapes without losses: plain, with batch-size limit 1 (failpoint twoPCRequestBatchSizeLimit), and with one or two region errors / splits at random RPC indexes that force the committer to re-group its batches, optionally a concurrent reader (its lock-resolution requests are monitored too); the judge's monitor reads the rpc stream; pess-program family: pessimistic programs whose LockKeys calls fail with write conflict / key exists (first call favoured) and carry on with other keys, long variants wait for wall-clock heart-beats (`audit heartbeat`); long-txn family: primary ttl extended by heart-beats under a stepped virtual clock, then a foreign reader / locker / writer meets a lock inside the prewrite phase (rule 5 incl. its async-commit recovery half, rule 8 incl. pessimistic lock requests, rule 4 with action codes); slow-owner family (clock step between execution and delivery of a status check) and beat-faults family (isolated heart-beat failures with successes in between, then `audit heartbeat` / `audit held` and a foreign no-wait locker); shape kind insdel (check-only mutations; rule 8 for async-commit primaries); round 3: lazy writes (`setlazy`: constraint check deferred to prewrite) in the pess-program family, rule 9 extended to the per-mutation pessimistic action of a pessimistic prewrite (locked key 1, lazily written unlocked key 2, else 0), the C03 triple family also runs here, aged shapes / commit mode `both`; round 4: lock-if-exists-first family (every 20th scenario: rules 6 and 8 for the real primary chosen after a LockOnlyIfExists first call on a missing key); the directed async-recovery family (rule 4 on the resolver's side, profile full)")
 
 
 def run(a):
